@@ -298,7 +298,7 @@ def harnesses(tier):
     if tier == "quick":
         hs = [Step(2, 2), Step(1, 2), History(3, 3)]
     else:
-        hs = [Step(2, 2), Step(1, 2), Step(3, 3), Step(3, 2), Step(1, 1), History(3, 5), History(4, 3)]
+        hs = [Step(2, 2), Step(1, 2), Step(3, 3), Step(3, 2), Step(1, 1), Step(4, 4), Step(2, 4), History(3, 5), History(4, 3), History(4, 4), History(5, 3)]
     hs += [Step(1, 1, wrong="stale"), Step(1, 1, wrong="reach"), History(2, 2, wrong="stale")]
     return hs
 
